@@ -71,6 +71,8 @@ var constRewrite = map[string]map[string]string{
 	"executor": {"WriteChannelCommandDepth": "256"},
 }
 
+func fileExists(p string) bool { _, err := os.Stat(p); return err == nil }
+
 func fatal(f string, a ...any) {
 	fmt.Fprintf(os.Stderr, "instr: "+f+"\n", a...)
 	os.Exit(2)
@@ -80,6 +82,7 @@ func main() {
 	repo := flag.String("repo", "/repo", "repository root")
 	verif := flag.String("verif", "/verif", "verif root")
 	out := flag.String("out", "", "output directory")
+	fallbackExports := flag.Bool("fallback-exports", false, "use <name>.fallback instead of <name>.go for the export hooks (an export no longer compiles against this tree)")
 	norewrite := flag.Bool("norewrite", false, "map only the virtual packages and export files (no source rewriting): overlay of the free-running -race binary")
 	flag.Parse()
 	if *out == "" {
@@ -175,7 +178,13 @@ func main() {
 			return nil
 		}
 		rel, _ := filepath.Rel(filepath.Join(*verif, "exports"), p)
-		overlay[filepath.Join(*repo, filepath.Dir(rel), "zz_verif_"+filepath.Base(rel))] = p
+		src := p
+		if *fallbackExports {
+			if fb := strings.TrimSuffix(p, ".go") + ".fallback"; fileExists(fb) {
+				src = fb
+			}
+		}
+		overlay[filepath.Join(*repo, filepath.Dir(rel), "zz_verif_"+filepath.Base(rel))] = src
 		return nil
 	})
 	js, _ := json.MarshalIndent(map[string]any{"Replace": overlay}, "", " ")
